@@ -194,3 +194,28 @@ def fail_skip_sets(obs, needed, extra_fail=()):
         if t in extra_fail:
             F.add(t)
     return F, S
+
+
+def exec_path_exists(tasks, src, dst, allowed):
+    """is dst reachable from src along dependency edges whose intermediate tasks are all in `allowed`?"""
+    seen = set()
+    stack = [src]
+    while stack:
+        x = stack.pop()
+        for d in tasks[x]["deps"]:
+            if d == dst:
+                return True
+            if d in allowed and d not in seen:
+                seen.add(d)
+                stack.append(d)
+    return False
+
+
+def hidden_skips(tasks, needed, F, S):
+    """members of S whose only connection to a failed task runs through a task that is not part of
+    this invocation's plan (a reusable cached experiment)"""
+    out = set()
+    for t in S:
+        if not any(exec_path_exists(tasks, t, f, needed) for f in F):
+            out.add(t)
+    return out
